@@ -436,7 +436,8 @@ fn case_raw(kv: &Kv) -> String {
     if let Some((ko, kn)) = s.off {
         if fail.is_none() && dl.is_none() && stack == "none" {
             let mut same = true;
-            for big in [(1usize << 32) - 3, 1usize << 40, (1usize << 63) - 2] {
+            // the last one puts the end of the longer range exactly at usize::MAX
+            for big in [(1usize << 32) - 3, 1usize << 40, (1usize << 63) - 2, usize::MAX - oe.max(ne)] {
                 let old = &Off { off: ko + big, v: s.old.clone() };
                 let new = &Off { off: kn + big, v: s.new.clone() };
                 let (log2, r2) = with_stack!(stack, fail, old, new, |d| call_entry!(
